@@ -290,6 +290,52 @@ def direct_version_oracle(case):
     return None
 
 
+def generation_floor_oracle(case, wrapping):
+    """C08 (and C19), read off the trace itself.  `preset a sv av` puts every slot the (empty) storage has at that
+    moment at generation sv; harness/cycle_probe shows on every run that this is the state sv - 1 real
+    create/destroy cycles of a slot reach, in which every generation below sv has been issued for that slot.
+    Without wrapping_version a later create in one of those slots must therefore never return a generation below
+    sv (it would be a handle of an earlier cycle, issued again instead of the overflow panic); likewise the
+    generations one slot issues never decrease.  Slots known to exist at the preset: those below the capacity
+    the world was created with (capacity never shrinks) and those already seen in a handle.
+    Returns (op index, text) or None."""
+    if wrapping:
+        return None
+    caps = []            # per world: initial capacity per archetype
+    floors = []          # per world: {arch: (sv, number of slots known to exist at the preset)}
+    last = []            # per world: {(arch, key): highest generation returned}
+    seen = []            # per world: {arch: 1 + highest slot index seen}
+    cur = None
+    for i, (o, ob) in enumerate(zip(case['ops'], case['obs'])):
+        if ob is None:
+            break
+        k = o[0]
+        if k == 'new' and ob and ob[0] == 1:
+            caps.append(list(o[1])); floors.append({}); last.append({}); seen.append({}); cur = len(floors) - 1
+        elif k == 'clone' and ob and ob[0] == 1 and cur is not None and cur < len(floors):
+            caps.append(list(caps[cur])); floors.append(dict(floors[cur])); last.append(dict(last[cur])); seen.append(dict(seen[cur]))
+        elif k == 'switch' and ob and ob[0] == 1:
+            cur = o[1]
+        elif k == 'preset' and ob and ob[0] == 1 and cur is not None and cur < len(floors):
+            a = o[1]
+            known = max(caps[cur][a] if a < len(caps[cur]) else 0, seen[cur].get(a, 0))
+            floors[cur][a] = (o[2], known)
+            for kk in [kk for kk in last[cur] if kk[0] == a]:
+                del last[cur][kk]      # the hook may also lower generations: what was issued before it says nothing about later creates
+        elif k in ('create', 'createw') and ob and ob[0] == 1 and len(ob) == 3 and cur is not None and cur < len(floors):
+            a, key, ver = o[1], ob[1], ob[2]
+            slot = key >> 8
+            fl = floors[cur].get(a)
+            if fl is not None and slot < fl[1] and ver < fl[0]:
+                return i, ('create returned generation %d for slot %d of a storage whose slots had all reached generation %d (preset = that many real cycles): a handle of an earlier cycle is issued again instead of the overflow panic' % (ver, slot, fl[0]))
+            lv = last[cur].get((a, key))
+            if lv is not None and ver <= lv:
+                return i, 'create returned generation %d for a position that had already issued generation %d' % (ver, lv)
+            last[cur][(a, key)] = ver
+            seen[cur][a] = max(seen[cur].get(a, 0), slot + 1)
+    return None
+
+
 def case_key(case):
     return hashlib.sha256(('\n'.join(O.to_rust(o) for o in case['ops'])).encode()).hexdigest()
 
@@ -731,6 +777,18 @@ def check(pid, tier, seed):
                                               observed=c['obs'][:bad + 1], oracle='direct_version', broken=broken))
                 violations.append('VIOLATION property=%s replay=%s' % (pid, path))
                 break
+    # 1d. generations never fall below what a storage already issued (C08; C19 for the configurations without wrapping_version)
+    if pid in ('C08', 'C19') and not violations:
+        for r in all_results:
+            c = r['case']
+            hit = generation_floor_oracle(c, CONFIGS[c['config']]['cfg']['wrapping'])
+            if hit is not None:
+                bad, text = hit
+                path = write_replay(pid, dict(property=pid, kind='specification-violation', world=c['world'], config=c['config'], seed=seed, stream=c.get('stream'),
+                                              reason=text, failing_op_index=bad, ops=[O.to_rust(o) for o in c['ops'][:bad + 1]], ops_struct=c['ops'][:bad + 1],
+                                              observed=c['obs'][:bad + 1], oracle='generation_floor', broken=broken))
+                violations.append('VIOLATION property=%s replay=%s' % (pid, path))
+                break
     # 2. model / implementation disagreements, decl mismatches, deaths
     diffs = [r for r in all_results if r['diff'] is not None or r['case'].get('died') or r['case'].get('decl_mismatch')]
 
@@ -983,6 +1041,13 @@ def replay(path):
         k = direct_ref_of(c['ops'][r['spec']['index']])
         org = direct_origins(w, c['ops'], c['obs'])
         c07_direct = k is not None and k < len(org) and org[k] == 'iterd'
+    if j.get('oracle') == 'generation_floor':
+        hit = generation_floor_oracle(c, CONFIGS[j['config']]['cfg']['wrapping'])
+        print('generation-floor oracle:', ('violated at op %s: %s' % hit) if hit is not None else 'satisfied')
+        if hit is not None:
+            print('VIOLATION property=%s replay=%s' % (pid, path))
+            return 1
+        return 0
     if j.get('oracle') == 'direct_version':
         bad = direct_version_oracle(c)
         print('direct-version oracle:', 'violated at op %s' % bad if bad is not None else 'satisfied')
